@@ -59,8 +59,10 @@ Ltac dq := repeat match goal with
   | q : quat |- _ => destruct q
   | v : vec |- _ => destruct v
   | m : mat |- _ => destruct m end.
-Ltac unf := unfold vn2 in *; unfold qeq, veq, meq, qmul, qconj, qneg, qscale, qinv, n2, qone, qzero,
-  vzero, vadd, vsub, vneg, vscale, vdot, vn2, mid, mtrans, mmul, mvmul, mdet, rot, rot_unit in *; cbn [qw qx qy qz vx vy vz m00 m01 m02 m10 m11 m12 m20 m21 m22] in *.
+Ltac unf := unfold vn2, rot, rot_unit, qinv in *; cbv zeta in *;
+  unfold qeq, veq, meq, qmul, qconj, qneg, qscale, n2, qone, qzero,
+  vzero, vadd, vsub, vneg, vscale, vdot, mid, mtrans, mmul, mvmul, mdet in *;
+  cbn [qw qx qy qz vx vy vz m00 m01 m02 m10 m11 m12 m20 m21 m22] in *.
 (* split a conjunction of Q-equations and close each with the given tactic *)
 Ltac each tac := repeat split; tac.
 
@@ -254,7 +256,7 @@ Qed.
 Lemma rot_scale k q : ~ k == 0 -> rot (qscale k q) =m= rot q.
 Proof.
   intros Hk. destruct (Qeq_dec (n2 q) 0) as [Z|NZ].
-  - apply n2_zero_iff in Z. rewrite Z. unf. conj; field; assumption.
+  - apply n2_zero_iff in Z. rewrite Z. unf. unfold Qdiv. conj; ring.
   - pose proof (n2_scale_nonzero k q Hk NZ) as Hs. revert NZ Hs. dq; unf. intros NZ Hs.
     conj; field; conj; assumption.
 Qed.
